@@ -27,8 +27,10 @@ func Sender.newBatch
 func Sender.batcher
   props C17
   requires s.BatchSize >= 1 && s.agent != nil && !isnil(s.signer) && !isnil(s.log)
-  modifies everything, signCalls, publishCount, lastPublishedTTL, lastPublishedBatch
-  loop 1 modifies everything, signCalls, publishCount, lastPublishedTTL, lastPublishedBatch
+  modifies everything, signCalls, publishCount, lastPublishedTTL, lastPublishedBatch, recvs
+  loop 1 modifies everything, signCalls, publishCount, lastPublishedTTL, lastPublishedBatch, recvs
   loop 1 invariant C17/batch-size-bound: batch != nil && len(batch.Snapshots) <= s.BatchSize
   loop 1 invariant C17/published-with-ttl: publishCount == old(publishCount) || (lastPublishedTTL == s.TTL && lastPublishedBatch)
-@*/
+  // nothing is dropped on the way in: every snapshot this batcher takes from the channel is
+  // signed (recvs[ch] is maintained by the verifier at every receive)
+  loop 1 invariant C17/every-received-snapshot-is-signed: signCalls - old(signCalls) == recvs[ch] - old(recvs[ch])@*/
